@@ -278,15 +278,13 @@ def check(report, tier):
                                "instantiated_bodies": summ.get("analysed_bodies", 0), "reader_operations_executed": reader_ops,
                                "writer_operations_executed": writer_ops, "tsan_runs": len(runs)},
         "distinct_nontrivial": analysed + helpers + distinct_ops,
-        "distinct_nontrivial_rule": "source-level const member functions with an analysed instantiated body (merged over "
+        "rule": "source-level const member functions with an analysed instantiated body (merged over "
                                     "instantiations) + non-const functions that receive shared memory (copy constructors, "
                                     "assignments, comparison helpers and their callees) + distinct (container kind, const operation) "
                                     "pairs executed concurrently by the reader threads and compared with the sequential result",
-        "samples": {
-            "table_entries": _sample_entries(),
-            "schedules": [dict(_schedule(r), races=r["races"], mismatches=r["mismatches"], reader_ops=r["reader_ops"]) for r in runs[:4]],
-            "flagged": flagged[:3],
-        },
+        "samples": [{"table_entry": e} for e in _sample_entries()] +
+                   [{"schedule": dict(_schedule(r), races=r["races"], mismatches=r["mismatches"], reader_ops=r["reader_ops"])} for r in runs[:4]] +
+                   [{"flagged": f} for f in flagged[:3]],
         "footprint": {"cmd": " ".join(footprint_cmd()), "analysed_const_members": analysed, "flagged": len(flagged),
                       "errors": len(errors), "by_role": table_entries, "instantiated_classes": summ.get("instantiated_classes"),
                       "mutable_fields": summ.get("mutable_fields", {})},
